@@ -118,7 +118,14 @@ def replay_case(case, tag, rng, tier):
         elif e["act"] == "Copy":
             copies.append(copy.deepcopy(recv))
         elif e["act"] == "Obs":
+            # an observation in the middle of a history: the whole battery plus hashing / equality / set insertion, so that
+            # anything the object memoises is memoised *before* the next move
             call(battery, recv, case, pose, num)
+            call(hash, recv)
+            call(lambda: recv == recv)
+            call(lambda: {recv})
+            for c in copies:
+                call(hash, c)
     fresh, exc = call(build, cur, pose, num)
     if exc is not None:
         return out
